@@ -258,12 +258,12 @@ def link_tla(c, frames=None, noise=None):
     fr = [c['frames'][i] for i in frames] if frames else c['frames']
     nz = [c['noise'][i] for i in noise] if noise else c['noise']
     d = dict(id=c['id'], proto=c['proto'], frames=TlaSet(fr), fill=TlaSet(c['fill']), noise=TlaSet(nz),
-             keys=c['keys'], sws=c['sws'], P=c['P'], G=c['G'])
+             keys=c['keys'], sws=c['sws'], infl=3 if c['proto'] == 'pkone' else 0, P=c['P'], G=c['G'])
     return to_tla(d)
 
 
 def link_json(c):
-    return dict(id=c['id'], proto=c['proto'], keys=c['keys'], sws=c['sws'], P=c['P'], G=c['G'])
+    return dict(id=c['id'], proto=c['proto'], keys=c['keys'], sws=c['sws'], infl=3 if c['proto'] == 'pkone' else 0, P=c['P'], G=c['G'])
 
 
 def framing_mc_module(cfgs):
@@ -356,7 +356,7 @@ def _reset_decoder(proto, w):
         comm.received_msg = b''
         comm.messages_in_flight = 0
         comm._parse_msg(b''.join(('PSW0%02d0E' % n).encode() for _, n in PK_SW))
-        comm.messages_in_flight = 0
+        comm.messages_in_flight = 3       # as if three commands were awaiting their answers (cfg.infl)
     w['rec']['calls'] = []
     w['rec']['on'] = True
 
@@ -451,7 +451,8 @@ def _exec_wire(cfg, wire, upto, nsample, seed, extra):
                 ids[t] = len(tbl)
             o.append(ids[t])
         c, ls = _carry(proto, comm)
-        line = {'o': o, 's': [int(x.state) for x in sw], 'c': c, 'ls': ls, 'dd': dead}
+        line = {'o': o, 's': [int(x.state) for x in sw], 'c': c, 'ls': ls, 'dd': dead,
+                'f': int(comm.messages_in_flight) if proto == 'pkone' else 0}
         if n <= 24:
             line.update(t='m', m=mask, k=[])
         else:
@@ -734,9 +735,10 @@ def run_framing(ctx):
     gen = dict(MaxFrames=3, MaxFaults=3, MaxInsert=2, MaxFill=2, MaxChunk=11)
     with open(wd + '/Gen.cfg', 'w') as f:
         f.write(B(gen, 'Spec', 'MCConfigs', '{}', ''))
-    behs, _ = tlc.simulate(wd, 'SerialFramingGen', 'Gen.cfg', num=100 if ctx.quick else 1500, depth=70, seed=ctx.seed)
-    upto = 11 if ctx.quick else 15
-    nsample = 30 if ctx.quick else 300
+    behs, _ = tlc.simulate(wd, 'SerialFramingGen', 'Gen.cfg', num=100 if ctx.quick else 600, depth=70, seed=ctx.seed)
+    upto = 11 if ctx.quick else 13         # every chunking for streams up to this many bytes ...
+    nexh = 10 ** 6 if ctx.quick else 60   # ... (thorough: for the first nexh such streams, 11 bytes beyond)
+    nsample = 30 if ctx.quick else 100
     jobs, seen = [], set()
 
     def add(cfg, wire, extra):
@@ -744,7 +746,7 @@ def run_framing(ctx):
         if not wire or key in seen:
             return
         seen.add(key)
-        jobs.append((cfg, list(wire), upto, nsample, ctx.seed, list(extra)))
+        jobs.append([cfg, list(wire), 11, nsample, ctx.seed, list(extra)])
     for cfg, wire, extra in handmade(cfgs):
         add(cfg, wire, extra)
     for b in behs:
@@ -759,9 +761,15 @@ def run_framing(ctx):
         add(by[last['cfg']['id']], wire[:44], [mask] if len(wire) <= 24 else [])
     rnd = random.Random(ctx.seed)
     for cfg in cfgs:
-        for _ in range(8 if ctx.quick else 150):
+        for _ in range(8 if ctx.quick else 60):
             add(cfg, random_wire(cfg, rnd), [])
-    jobs.sort(key=lambda j: -len(j[1]) if len(j[1]) <= upto else 0)
+    k = 0
+    for j in jobs:
+        if 11 < len(j[1]) <= upto and k < nexh:
+            j[2] = upto
+            k += 1
+    jobs = [tuple(j) for j in jobs]
+    jobs.sort(key=lambda j: -len(j[1]) if len(j[1]) <= j[2] else 0)
     traces = harness.pmap(exec_wire, jobs, chunk=2)
     with open(wd + '/Trace.cfg', 'w') as f:
         f.write(B(dict(MaxFrames=0, MaxFaults=0, MaxInsert=0, MaxFill=0, MaxChunk=0), 'TSpec', 'TConfigs', '{}', 'INVARIANT Reporter\n'))
@@ -843,7 +851,7 @@ def run_flow(ctx):
     for k, dev in enumerate(('{}', '{"PauseFlagWaitsOnSetEvent", "LostResponseNotRetried"}')):
         with open(wd + '/Gen%d.cfg' % k, 'w') as f:
             f.write(F(gen, dev, ''))
-        behs, _ = tlc.simulate(wd, 'FastFlowGen', 'Gen%d.cfg' % k, num=40 if ctx.quick else 600, depth=40, seed=ctx.seed + k)
+        behs, _ = tlc.simulate(wd, 'FastFlowGen', 'Gen%d.cfg' % k, num=40 if ctx.quick else 400, depth=40, seed=ctx.seed + k)
         for b in behs:
             s = [{'op': x['act']['op'], 'c': x['act'].get('c', 0), 'h': x['act'].get('h', '')} for x in b
                  if x['act'].get('op') in ('call', 'resp', 'adv')]
@@ -902,7 +910,10 @@ def run(ctx):
         'keep the decoder out of synch: the "unknown command" branch drops two bytes)',
         'FAST/PKONE noise alphabets are chosen so that only switch-event headers can be formed; bytes >= 0x80 used as noise '
         'are never valid UTF-8 (0xff)',
-        'FastFlow: at most one coroutine at a time waits for no_response_waiting; watchdog writes are switched off',
+        'FastFlow: the periodic watchdog send_and_forget is switched off; commands are synthetic strings C<id>: (the '
+        'communicator does not interpret them), confirmations are real ID:/CH:/-L:/XX: lines plus an unknown header ZZ:',
+        'OPP look-alike payloads (link opp2: data bytes 0x20..0x3f followed by 0x08/0x19): no bounded Resync is claimed, TLC '
+        'shows valid reports lost for more than two end-of-message groups after a single corrupted byte',
     ]
 
 
